@@ -189,8 +189,11 @@ def check(col: Collector, tier: str):
     reorder = any(isinstance(c, ast.Call) and call_name(c) in ("set", "sorted", "reversed", "frozenset", "dict", "fromkeys", "unique")
                   for c in ast.walk(ib.node))
     iter_all = any(isinstance(g, ast.comprehension) and src(g.iter) == "self._inject_blocks" and not g.ifs for g in ast.walk(ib.node))
-    col.add("C14.R3", "executor._ib_fetch", "ordered-concatenation", uses_chain and not reorder and iter_all,
-            "fields must be concatenated with itertools.chain over every block of self._inject_blocks, no set/sorted/reversed", ib.loc)
+    # ... or the same flattening written as one comprehension: [x for md in self._inject_blocks for x in getattr(md, name)]
+    flat_comp = _flattening_comprehension(ib.node)
+    col.add("C14.R3", "executor._ib_fetch", "ordered-concatenation", (uses_chain or flat_comp) and not reorder and iter_all,
+            "fields must be concatenated in order (itertools.chain, or one comprehension flattening each block's value) over every block of "
+            "self._inject_blocks, no set/sorted/reversed", ib.loc)
     getattr_ok = any(isinstance(c, ast.Call) and call_name(c) == "getattr" and src(c.args[1]) == "name" for c in ast.walk(ib.node))
     col.add("C14.R3", "executor._ib_fetch", "fetches-requested-field", getattr_ok, "getattr(md, name) must read the requested field", ib.loc)
     check_ib_fetch_verbatim(col, "C14.R3", repo)
@@ -258,11 +261,13 @@ def check_r4(col: Collector, repo: Repo):
         raise AnalysisError("process_metadata has no inject_code branch")
     body = ast.Module(body=branch.body, type_ignores=[])
     appends = [c for c in ast.walk(body) if isinstance(c, ast.Call) and call_name(c) == "append"]
+    # the one append stands under ok_to_add_code_block(<the appended block>, <the list appended to>) being true (an atom of the closed guard
+    # set: the test may be combined with others, nested, or written as a guard clause)
     guarded = False
-    for n in ast.walk(body):
-        if isinstance(n, ast.If) and isinstance(n.test, ast.Call) and call_name(n.test) == "ok_to_add_code_block":
-            inner = [c for c in ast.walk(ast.Module(body=n.body, type_ignores=[])) if isinstance(c, ast.Call) and call_name(c) == "append"]
-            guarded = len(inner) == len(appends) == 1 and len(n.test.args) == 2 and src(n.test.args[0]) == src(inner[0].args[0])
+    if len(appends) == 1 and appends[0].args:
+        from sa.core.paths import guards as _guards, parent_map as _pm
+        want = f"ok_to_add_code_block({src(appends[0].args[0])}, {src(appends[0].func.value)})"
+        guarded = (want, True) in {(src(t), tr_) for t, tr_ in _guards(pm.node, appends[0], _pm(pm.node))}
     col.add("C14.R4", "process_metadata.inject_code", "append-guarded-by-duplicate-check", guarded,
             "the block must be appended exactly once and only if ok_to_add_code_block(spec, already-seen) says so", pm.loc)
     # TypeError -> ValueError around InjectCodeBlock(**info)
@@ -325,12 +330,22 @@ def check_r4(col: Collector, repo: Repo):
             "is not a duplicate, and whether it is met first depends only on where along the chain the metadata was attached", ok_fn.loc)
 
 
+def _flattening_comprehension(fn) -> bool:
+    for c in ast.walk(fn):
+        if isinstance(c, (ast.ListComp, ast.GeneratorExp)) and len(c.generators) == 2:
+            g1, g2 = c.generators
+            if src(g1.iter) == "self._inject_blocks" and not g1.ifs and not g2.ifs and isinstance(g2.iter, ast.Call) and call_name(g2.iter) == "getattr" \
+                    and src(g2.iter.args[0]) == src(g1.target) and src(c.elt) == src(g2.target):
+                return True
+    return False
+
+
 def check_ib_fetch_verbatim(col: Collector, rule: str, repo: Repo):
     """The field values are chained as they are: no per-value wrapper that treats lists, tuples or strings differently
     (a tuple-valued field - what a Python AST carries where qastle text carries a list - must expand like a list)."""
     ib = repo.method("executor", "_ib_fetch", hint="common.executor")
     comps = [n for n in ast.walk(ib.node) if isinstance(n, (ast.ListComp, ast.GeneratorExp)) and any(src(g.iter) == "self._inject_blocks" for g in n.generators)]
-    ok = len(comps) == 1 and isinstance(comps[0].elt, ast.Call) and call_name(comps[0].elt) == "getattr"
+    ok = len(comps) == 1 and ((isinstance(comps[0].elt, ast.Call) and call_name(comps[0].elt) == "getattr") or _flattening_comprehension(ib.node))
     typed = [src(c) for c in ast.walk(ib.node) if isinstance(c, ast.Call) and call_name(c) in ("isinstance", "type")]
     col.add(rule, "executor._ib_fetch", "field-values-chained-as-they-are", ok and not typed,
             f"each block's field value must be chained directly (getattr(md, name)); type-dependent wrapping {typed} makes a tuple-valued field "
